@@ -2,7 +2,7 @@
 //! command was posted to them), in an order chosen by a seed; it runs to quiescence after every
 //! external event, so "pending at quiescence" (a hang) and "woken" are observable.
 #![allow(dead_code)]
-use std::cell::RefCell;
+use std::cell::{Cell, RefCell};
 use std::collections::VecDeque;
 use std::future::Future;
 use std::pin::Pin;
@@ -14,6 +14,19 @@ use std::task::{Context, Poll, Wake, Waker};
 pub struct Flag {
     pub woken: AtomicBool,
     pub wakes: AtomicU64,
+    /// a command waits in the task's mailbox.  A command is an external event: it is handed out only when no task is
+    /// woken (everything the previous events have started has run as far as it can), one command per such poll.  When
+    /// commands queue up behind a busy task, whether the next one overtakes the work in progress must not depend on
+    /// how many polls that work takes (a `select(accept, next command)` would otherwise drop an `accept()` that needs
+    /// one poll more than before, although nothing about the connection has changed).
+    pub mail: AtomicBool,
+}
+
+thread_local! {
+    /// this poll was granted for the mailbox (nothing else was runnable): `NextCmd` may hand out one command
+    static MAIL_OK: Cell<bool> = const { Cell::new(false) };
+    /// `NextCmd` was reached with a command waiting but may not hand it out in this poll: come back at quiescence
+    static MAIL_WANTED: Cell<bool> = const { Cell::new(false) };
 }
 
 impl Wake for Flag {
@@ -60,11 +73,15 @@ pub struct NextCmd(pub Mailbox);
 impl Future for NextCmd {
     type Output = String;
     fn poll(self: Pin<&mut Self>, _: &mut Context<'_>) -> Poll<String> {
-        match self.0.borrow_mut().pop_front() {
-            Some(c) => Poll::Ready(c),
-            // the executor sets the task's flag when it posts a command
-            None => Poll::Pending,
+        if self.0.borrow().is_empty() {
+            // the executor sets the task's mail flag when it posts a command
+            return Poll::Pending;
         }
+        if MAIL_OK.with(|m| m.replace(false)) {
+            return Poll::Ready(self.0.borrow_mut().pop_front().expect("checked above"));
+        }
+        MAIL_WANTED.with(|m| m.set(true));
+        Poll::Pending
     }
 }
 
@@ -89,7 +106,7 @@ impl Exec {
             self.tasks.push(Task {
                 name,
                 fut: Some(fut),
-                flag: Arc::new(Flag { woken: AtomicBool::new(true), wakes: AtomicU64::new(0) }),
+                flag: Arc::new(Flag { woken: AtomicBool::new(true), wakes: AtomicU64::new(0), mail: AtomicBool::new(false) }),
                 mailbox,
                 polls: 0,
             });
@@ -106,7 +123,7 @@ impl Exec {
         match self.find(name) {
             Some(i) if self.tasks[i].fut.is_some() => {
                 self.tasks[i].mailbox.borrow_mut().push_back(cmd.to_string());
-                self.tasks[i].flag.woken.store(true, Ordering::SeqCst);
+                self.tasks[i].flag.mail.store(true, Ordering::SeqCst);
                 true
             }
             _ => false,
@@ -125,12 +142,29 @@ impl Exec {
                 .filter(|(_, t)| t.fut.is_some() && t.flag.woken.load(Ordering::SeqCst))
                 .map(|(i, _)| i)
                 .collect();
+            // nothing is woken: now, and only now, a waiting command is delivered
+            let for_mail = ready.is_empty();
+            let ready: Vec<usize> = if for_mail {
+                self.tasks
+                    .iter()
+                    .enumerate()
+                    .filter(|(_, t)| t.fut.is_some() && t.flag.mail.load(Ordering::SeqCst) && !t.mailbox.borrow().is_empty())
+                    .map(|(i, _)| i)
+                    .collect()
+            } else {
+                ready
+            };
             if ready.is_empty() {
                 break;
             }
             let pick = if self.seed == 0 { ready[0] } else { ready[(self.next_rand() % ready.len() as u64) as usize] };
             let t = &mut self.tasks[pick];
             t.flag.woken.store(false, Ordering::SeqCst);
+            if for_mail {
+                t.flag.mail.store(false, Ordering::SeqCst);
+            }
+            MAIL_OK.with(|m| m.set(for_mail));
+            MAIL_WANTED.with(|m| m.set(false));
             let waker = Waker::from(t.flag.clone());
             let mut cx = Context::from_waker(&waker);
             t.polls += 1;
@@ -139,6 +173,10 @@ impl Exec {
                 Some(f) => f.as_mut().poll(&mut cx).is_ready(),
                 None => false,
             };
+            MAIL_OK.with(|m| m.set(false));
+            if MAIL_WANTED.with(|m| m.replace(false)) {
+                t.flag.mail.store(true, Ordering::SeqCst);
+            }
             if done {
                 t.fut = None;
             }
